@@ -4,6 +4,7 @@ package main
 // exhaustive fault positions / deterministic message sequences against the Lean protocol and actor models.
 
 import (
+	"bytes"
 	"context"
 	"errors"
 	"fmt"
@@ -173,6 +174,22 @@ func runC06(c *ctx) {
 				got, qerr := visibleIDs(eng)
 				if fmt.Sprint(got) != fmt.Sprint(want) {
 					c.r.Add(Finding{Kind: "violation", Check: "ack-vs-visibility", Detail: fmt.Sprintf("acknowledgement nil=%v but %s sees ids %v (want %v, query err %v)", ackA == nil, which, got, want, qerr), Replay: replay})
+				}
+				// the same through the filter stage: every row has an _id field, so a Field("_id") query has the
+				// same answer but needs the files' block filter regions to be readable
+				out := RunQuery(eng, bs.NewQuery().Field("_id").Build())
+				if gotF := idsOf(out.Rows); fmt.Sprint(gotF) != fmt.Sprint(want) {
+					c.r.Add(Finding{Kind: "violation", Check: "ack-vs-visibility", Detail: fmt.Sprintf("acknowledgement nil=%v but a Field(_id) query on %s sees ids %v (want %v, query err %v)", ackA == nil, which, gotF, want, out.Err), Replay: replay})
+				}
+			}
+			// and for a MetaStore that derives metadata from the files themselves (the shipped
+			// FileSystemDataStore does): every committed file must read back through ReadFileMetadata
+			if files, err := AllFiles(env.Meta); err == nil {
+				pub := env.Data.Published()
+				for _, f := range files {
+					if _, _, rerr := bs.ReadFileMetadata(bytes.NewReader(pub[string(f.PointerBytes)])); rerr != nil {
+						c.r.Add(Finding{Kind: "violation", Check: "ack-vs-visibility", Detail: fmt.Sprintf("acknowledgement nil=%v and file %s is committed, but its own footer does not read back (%v): a directory-scanning MetaStore would not see its rows", ackA == nil, f.PointerBytes, rerr), Replay: replay})
+					}
 				}
 			}
 			if got99, _ := visibleIDs(env.Eng); got99[99] != 0 {
